@@ -146,6 +146,15 @@ def scan_step(p):
             rs.state.with_store(store, [rs.ops.scan(f, mkseed, reduce=reduce, terminator=term)])
         ).subscribe(on_next=lambda i: out.append(i), on_error=lambda e: out.append(('ERR', repr(e))))
         s.on_next(rs.OnCreateMux(key))
+        # calibration: this harness presets the accumulator through state id 0 of the store; check that this is where the real operator keeps it
+        # (if the representation has changed the obligation is inconclusive, never a violation)
+        from vp.harness import Inconclusive
+        try:
+            probe = store.get_state(0, key)
+        except Exception:
+            probe = 'unreadable'
+        if probe is not rs.state.markers.STATE_NOTSET:
+            raise Inconclusive('scan_mux no longer keeps its accumulator in state 0 as NOTSET until the first item')
         if has:
             store.set_state(0, key, stored)
         del out[:]
